@@ -759,7 +759,12 @@ def x_setenv(eng, st, a):
 
 @ext('getpid')
 def x_getpid(eng, st, a):
-    return 4242
+    return st.ext.get('pid', 4242)
+
+
+@ext('vs_setpid')
+def x_vs_setpid(eng, st, a):
+    st.ext['pid'] = a[0] & 0xffffffff
 
 
 @ext('pthread_self')
